@@ -533,3 +533,242 @@ Proof.
   unfold run. assert (H : Inv (init acts)) by apply Inv_init. revert H. generalize (init acts).
   induction sched as [|t sched IH]; cbn; intros s H; [exact H|]. apply IH, Inv_step, H.
 Qed.
+
+(* ---------- consequences, for every schedule ---------- *)
+
+(* the value Exec returns does not depend on the schedule *)
+Theorem run_result sched r :
+  m_res (run f acts e sched) = Some r -> r = seq_result f acts e.
+Proof. intros H. now destruct (I_res _ (Inv_run sched) _ H). Qed.
+
+(* when Exec returns after the wait, every goroutine that called wg.Add (ASYNC, SPINASYNC,
+   forwarders — in every nested group) has been started and has finished *)
+Theorem run_completed sched r t :
+  m_res (run f acts e sched) = Some r -> e = FinPost t ->
+  map w_prog (ws (run f acts e sched)) = spawned acts /\
+  forall w, In w (ws (run f acts e sched)) -> target (w_prog w) <> None -> w_pc w = 3.
+Proof.
+  intros H He. pose proof (Inv_run sched) as HI. set (s := run f acts e sched) in *.
+  destruct (I_res _ HI _ H) as [_ [Htodo Hph]]. specialize (Hph _ He).
+  destruct (I_phase _ HI) as [_ [_ Hall]]; [congruence|]. split; [|exact Hall].
+  rewrite (I_ws _ HI). f_equal. pose proof (I_split _ HI) as Hsp.
+  rewrite Htodo, app_nil_r in Hsp. symmetry. exact Hsp.
+Qed.
+
+(* invocations *)
+Definition wcall_counted (p : wprog) : list call :=
+  match p with WCall k _ c => if counted k then [c] else [] | WFwd _ => [] end.
+Definition wcall_spin (p : wprog) : list call :=
+  match p with WCall WSpin _ c => [c] | _ => [] end.
+Definition spun1 (w : worker) : list call :=
+  match w_prog w with WCall WSpin _ _ => called1 w | _ => [] end.
+Definition unspun1 (w : worker) : list call :=
+  match w_prog w with WCall WSpin _ c => if 1 <=? w_pc w then [] else [c] | _ => [] end.
+
+Lemma called_split l :
+  (forall w, In w l -> target (w_prog w) <> None -> w_pc w = 3) ->
+  Permutation (called l) (flat_map wcall_counted (map w_prog l) ++ flat_map spun1 l).
+Proof.
+  induction l as [|w r IH]; intros H; cbn; [constructor|].
+  assert (IH' := IH (fun x Hx => H x (or_intror Hx))). clear IH.
+  pose proof (H w (or_introl eq_refl)) as Hw.
+  unfold called1 at 1, spun1 at 1. destruct (w_prog w) as [k g c|g] eqn:Hp; cbn; [|exact IH'].
+  destruct k; cbn in *.
+  - rewrite Hw by discriminate. cbn. apply perm_skip. exact IH'.
+  - rewrite Hw by discriminate. cbn. apply perm_skip. exact IH'.
+  - unfold called1. rewrite Hp. rewrite IH'.
+    rewrite !app_assoc. apply Permutation_app_tail. apply Permutation_app_comm.
+Qed.
+
+Lemma spin_split l :
+  Permutation (flat_map wcall_spin (map w_prog l)) (flat_map spun1 l ++ flat_map unspun1 l).
+Proof.
+  induction l as [|w r IH]; cbn; [constructor|].
+  unfold spun1 at 1, unspun1 at 1, called1. destruct (w_prog w) as [k g c|g] eqn:Hp; cbn; [|exact IH].
+  destruct k; cbn; try exact IH.
+  destruct (w_pc w) as [|pc]; cbn.
+  - rewrite IH. apply Permutation_middle.
+  - apply perm_skip. exact IH.
+Qed.
+
+Definition prog_calls (l : list action) : list call :=
+  flat_map (fun a => match a with
+                     | ASync c => [c]
+                     | ASpawn k _ c => if counted k then [c] else []
+                     | AFwd _ => []
+                     end) l.
+Definition spin_calls (l : list action) : list call :=
+  flat_map (fun a => match a with ASpawn WSpin _ c => [c] | _ => [] end) l.
+
+Lemma prog_calls_perm l :
+  Permutation (prog_calls l) (sync_calls l ++ flat_map wcall_counted (spawned l)).
+Proof.
+  induction l as [|a r IH]; cbn; [constructor|].
+  destruct a as [c|k g c|g]; cbn.
+  - apply perm_skip. exact IH.
+  - rewrite ?app_nil_r. destruct (counted k); cbn; [|exact IH].
+    rewrite IH. apply Permutation_middle.
+  - exact IH.
+Qed.
+
+Lemma spin_calls_eq l : spin_calls l = flat_map wcall_spin (spawned l).
+Proof.
+  induction l as [|a r IH]; cbn; [reflexivity|].
+  destruct a as [c|k g c|g]; cbn; auto. destruct k; cbn; auto. f_equal. exact IH.
+Qed.
+
+(* exactly once: when Exec returns after the wait, the invocation log consists of every
+   synchronous, ASYNC and SPINASYNC call of the run exactly once, plus those SPIN calls that
+   happened to run already (each at most once) *)
+Theorem run_exactly_once sched r t :
+  m_res (run f acts e sched) = Some r -> e = FinPost t ->
+  exists spun unspun,
+    Permutation (log (run f acts e sched)) (prog_calls acts ++ spun) /\
+    Permutation (spin_calls acts) (spun ++ unspun).
+Proof.
+  intros H He. destruct (run_completed _ _ _ H He) as [Hws Hall].
+  pose proof (Inv_run sched) as HI. set (s := run f acts e sched) in *.
+  destruct (I_res _ HI _ H) as [_ [Htodo _]].
+  exists (flat_map spun1 (ws s)), (flat_map unspun1 (ws s)). split.
+  - rewrite (I_log _ HI). rewrite (called_split _ Hall). rewrite Hws.
+    assert (Hd : m_done s = acts).
+    { pose proof (I_split _ HI) as Hsp. rewrite Htodo, app_nil_r in Hsp. symmetry. exact Hsp. }
+    rewrite Hd. rewrite app_assoc. apply Permutation_app_tail. symmetry. apply prog_calls_perm.
+  - rewrite spin_calls_eq, <- Hws. apply spin_split.
+Qed.
+
+(* ---------- no deadlock ---------- *)
+
+Fixpoint wsum (l : list worker) : nat :=
+  match l with [] => 0 | w :: r => (3 - w_pc w) + wsum r end.
+
+Definition mainpart (s : st) : nat :=
+  4 * List.length (m_todo s) +
+  match m_res s with
+  | Some _ => 0
+  | None => match m_phase s with Running => 2 | _ => 1 end
+  end.
+
+Definition mu (s : st) : nat := mainpart s + wsum (ws s).
+
+Lemma wsum_app l1 l2 : wsum (l1 ++ l2) = wsum l1 + wsum l2.
+Proof. induction l1; cbn [wsum app]; lia. Qed.
+
+Lemma wsum_set_nth n w w' l :
+  nth_error l n = Some w -> wsum (set_nth n w' l) + (3 - w_pc w) = wsum l + (3 - w_pc w').
+Proof.
+  revert n; induction l as [|y r IH]; intros [|n]; cbn [wsum set_nth nth_error]; try discriminate.
+  - intros [= ->]. lia.
+  - intros H. specialize (IH _ H). lia.
+Qed.
+
+Lemma find_first {A} (p : A -> bool) l :
+  (exists n w, nth_error l n = Some w /\ p w = true) \/ Forall (fun w => p w = false) l.
+Proof.
+  induction l as [|x r IH]; [right; constructor|].
+  destruct (p x) eqn:E; [left; exists 0, x; auto|].
+  destruct IH as [[n [w [H1 H2]]]|H]; [left; exists (S n), w; auto|right; constructor; auto].
+Qed.
+
+Lemma cnt_all_zero g l : (forall w, In w l -> pend g w = 0) -> cnt g l = 0.
+Proof.
+  induction l as [|x r IH]; cbn; intros H; [reflexivity|].
+  rewrite (H x (or_introl eq_refl)), IH; auto.
+Qed.
+
+Definition call_pending (w : worker) : bool :=
+  match w_prog w with WCall _ _ _ => w_pc w <? 3 | WFwd _ => false end.
+Definition fwd_pending (w : worker) : bool :=
+  match w_prog w with WFwd _ => w_pc w <? 3 | WCall _ _ _ => false end.
+
+Definition is_final (s : st) : Prop := m_res s <> None /\ Forall (fun w => w_pc w = 3) (ws s).
+
+(* in every reachable state that is not final some thread can take a step (which lowers mu) *)
+Lemma progress s : Inv s -> is_final s \/ exists t, mu (step f e s t) < mu s.
+Proof.
+  intros HI. pose proof HI as [Hs Hw Hok Hg Hf Hl Hp Hr].
+  destruct (find_first call_pending (ws s)) as [[n [w [Hn Hc]]]|Hnc].
+  { (* a call goroutine can always move *)
+    right. exists (S n). cbn. unfold worker_step. rewrite Hn.
+    unfold call_pending in Hc. destruct (w_prog w) as [k g c|g] eqn:Hpw; [|discriminate].
+    apply Nat.ltb_lt in Hc.
+    destruct (w_pc w) as [|[|[|pc]]] eqn:Hpc; try lia; unfold mu, mainpart; cbn;
+      match goal with |- context [set_nth n ?w' _] => pose proof (wsum_set_nth n w w' (ws s) Hn) as Hsum end;
+      cbn in Hsum; rewrite Hpc in Hsum; lia. }
+  assert (Hcall3 : forall w, In w (ws s) -> forall k g c, w_prog w = WCall k g c -> w_pc w = 3).
+  { intros w Hin k g c Hpw. rewrite Forall_forall in Hnc, Hok. specialize (Hnc _ Hin).
+    unfold call_pending in Hnc. rewrite Hpw in Hnc. apply Nat.ltb_ge in Hnc.
+    destruct (Hok _ Hin). lia. }
+  destruct (find_first fwd_pending (ws s)) as [[n [w [Hn Hc]]]|Hnf].
+  { (* a forwarder: its group is complete *)
+    right. exists (S n). cbn. unfold worker_step. rewrite Hn.
+    unfold fwd_pending in Hc. destruct (w_prog w) as [k g c|g] eqn:Hpw; [discriminate|].
+    apply Nat.ltb_lt in Hc.
+    assert (Hin : In w (ws s)) by (eapply nth_error_In; eauto).
+    assert (Hg0 : g <> 0).
+    { eapply (wfP_fwd_nonroot acts); eauto. rewrite Hs. apply in_or_app. left.
+      apply in_spawned_fwd. rewrite <- Hw, <- Hpw. now apply in_map. }
+    assert (Hzero : wgs s g = 0).
+    { rewrite Hg. apply cnt_all_zero. intros x Hx. unfold pend.
+      destruct (w_prog x) as [k' g' c'|g'] eqn:Hpx; cbn.
+      - rewrite (Hcall3 _ Hx _ _ _ Hpx). cbn. destruct (counted k'); [|reflexivity].
+        destruct (Nat.eqb g' g); reflexivity.
+      - destruct g; [congruence|reflexivity]. }
+    rewrite Forall_forall in Hok. destruct (Hok _ Hin) as [_ [_ Hne1]]. specialize (Hne1 _ Hpw).
+    destruct (w_pc w) as [|[|[|pc]]] eqn:Hpc; try lia; try congruence.
+    - rewrite Hzero. cbn. unfold mu, mainpart; cbn.
+      match goal with |- context [set_nth n ?w' _] => pose proof (wsum_set_nth n w w' (ws s) Hn) as Hsum end.
+      cbn in Hsum; rewrite Hpc in Hsum; lia.
+    - unfold mu, mainpart; cbn.
+      match goal with |- context [set_nth n ?w' _] => pose proof (wsum_set_nth n w w' (ws s) Hn) as Hsum end.
+      cbn in Hsum; rewrite Hpc in Hsum; lia. }
+  assert (Hall3 : Forall (fun w => w_pc w = 3) (ws s)).
+  { apply Forall_forall. intros w Hin. destruct (w_prog w) as [k g c|g] eqn:Hpw; [eauto|].
+    rewrite Forall_forall in Hnf, Hok. specialize (Hnf _ Hin). unfold fwd_pending in Hnf.
+    rewrite Hpw in Hnf. apply Nat.ltb_ge in Hnf. destruct (Hok _ Hin). lia. }
+  destruct (m_res s) as [r|] eqn:Hres.
+  { left. split; [congruence|exact Hall3]. }
+  right. exists 0. cbn. unfold main_step. rewrite Hres.
+  destruct (m_todo s) as [|a rest] eqn:Htodo.
+  - destruct e as [|t].
+    + unfold mu, mainpart; cbn. rewrite ?Hres, ?Htodo. cbn. destruct (m_phase s); lia.
+    + destruct (m_phase s) eqn:Hph.
+      * assert (Hz : wgs s 0 = 0).
+        { rewrite Hg. apply cnt_all_zero. intros x Hx. unfold pend.
+          rewrite Forall_forall in Hall3. rewrite (Hall3 _ Hx). cbn.
+          destruct (target (w_prog x)); [|reflexivity]. destruct (Nat.eqb n 0); reflexivity. }
+        rewrite Hz. cbn. unfold mu, mainpart; cbn. rewrite ?Hres, ?Htodo, ?Hph. cbn. lia.
+      * unfold mu, mainpart; cbn. rewrite ?Hres, ?Htodo, ?Hph. cbn. lia.
+      * unfold mu, mainpart; cbn. rewrite ?Hres, ?Htodo, ?Hph. cbn. lia.
+  - destruct a as [c|k g c|g]; unfold mu, mainpart; cbn; rewrite ?Hres, ?Htodo; cbn;
+      rewrite ?wsum_app; cbn; destruct (m_phase s); lia.
+Qed.
+
+Lemma completes_from n : forall s, mu s <= n -> Inv s ->
+  exists ext, is_final (fold_left (step f e) ext s).
+Proof.
+  induction n as [|n IH]; intros s Hmu HI.
+  - destruct (progress s HI) as [Hfin|[t Ht]]; [exists []; exact Hfin|lia].
+  - destruct (progress s HI) as [Hfin|[t Ht]]; [exists []; exact Hfin|].
+    destruct (IH (step f e s t)) as [ext Hext]; [lia|apply Inv_step; exact HI|].
+    exists (t :: ext). exact Hext.
+Qed.
+
+(* every schedule can be extended to one after which Exec has returned and every goroutine has
+   finished; then every WaitGroup counter is zero: each Add has been matched by a Done *)
+Theorem run_no_deadlock sched :
+  exists ext, is_final (run f acts e (sched ++ ext)) /\
+              forall g, wgs (run f acts e (sched ++ ext)) g = 0.
+Proof.
+  destruct (completes_from (mu (run f acts e sched)) _ (le_n _) (Inv_run sched)) as [ext Hext].
+  exists ext.
+  assert (Hrun : run f acts e (sched ++ ext) = fold_left (step f e) ext (run f acts e sched))
+    by (unfold run; apply fold_left_app).
+  split; [rewrite Hrun; exact Hext|].
+  intros g. rewrite (I_wg _ (Inv_run (sched ++ ext))). apply cnt_all_zero.
+  rewrite Hrun. destruct Hext as [_ Hall]. rewrite Forall_forall in Hall.
+  intros w Hin. unfold pend. rewrite (Hall _ Hin). cbn.
+  destruct (target (w_prog w)) as [h|]; [|reflexivity]. destruct (Nat.eqb h g); reflexivity.
+Qed.
+
+End Kernel.
